@@ -511,12 +511,72 @@ fn history_strategy(max_builds: usize) -> impl Strategy<Value = Vec<Op>> {
     })
 }
 
+/// reduced alphabet of handle_layer calls on one layer for the bounded-exhaustive sub-run
+fn reduced_alphabet() -> Vec<Op> {
+    let rich = ResScript {
+        metadata: MetaVal::V2("1.0".into(), 7),
+        env: Some(vec![
+            EnvEntry { scope: Sc::Process("web".into()), beh: Beh::Append, name: b"A.B".to_vec(), value: b"v".to_vec() },
+            EnvEntry { scope: Sc::Launch, beh: Beh::Default, name: b"X".to_vec(), value: vec![] },
+        ]),
+        execd: vec![("p".into(), b"#!".to_vec())],
+        sboms: vec![(2, b"{}".to_vec())],
+        plain: vec![("bin/tool".into(), b"x".to_vec())],
+    };
+    let plain = ResScript { metadata: MetaVal::Generic(TV::table(vec![("other", TV::Int(1))])), env: None, execd: vec![], sboms: vec![], plain: vec![("file.txt".into(), b"y".to_vec())] };
+    let mut ops = vec![];
+    for m in [MType::V1, MType::V2] {
+        for strategy in [Strat::Keep, Strat::Update, Strat::Recreate, Strat::Err] {
+            for migrate in [Mig::Recreate, Mig::Replace(MetaVal::V2("migrated".into(), 1)), Mig::Err] {
+                for (create, update) in [(Some(rich.clone()), Some(plain.clone())), (Some(plain.clone()), Some(rich.clone())), (None, None)] {
+                    ops.push(Op::Handle { name: 1, m, script: Script { types: (true, m == MType::V1, true), strategy, migrate: migrate.clone(), create, update } });
+                }
+            }
+        }
+    }
+    ops
+}
+
+struct ExOut {
+    o: HistOutcome,
+}
+
 pub fn run(ctx: &Ctx) {
-    ctx.set_rule("histories of handle_layer calls over 3 layer names interleaved with simulated lifecycle restores; the Layer implementation is fully scripted per call: types (8 flag combinations), metadata type {generic, V1, V2} (alternating types reach the migration path after restores), existing_layer_strategy in {keep, update, recreate, error}, migrate_incompatible_metadata in {recreate, replace with a valid value, error}, create/update returning metadata, env None | Some(entries over all/build/launch/process with byte-string names), 0..3 exec.d programs, 0..3 SBOMs, plain files written into the layer path (also bin/ lib/ include/ pkgconfig/), or an error. Oracle after EVERY call: callback log (which callbacks, once, in order, with which metadata/path, create on an empty directory) == model; Err iff a callback returned Err; disk == model (files bytewise via an independent env renderer, content metadata via Python tomllib, SBOMs); other layers byte-identical; returned LayerData (name, path, types, metadata, env applied for all scopes incl. per-process and unknown process to 3 starting envs, incl. implicit layer paths) == disk. Non-trivial: >= 2 handle_layer calls on the same name separated by a restore, with a layer result that carried a per-process env entry, an SBOM or an exec.d program; distinct = hash of the operation list.");
+    ctx.set_rule("bounded-exhaustive: every history [h], [h, h2], [h, restore, h2] over a reduced alphabet of 72 scripted handle_layer calls on one layer (metadata type V1/V2 x strategy keep/update/recreate/error x migrate recreate/replace/error x create+update results rich/plain/error) = 10 440 histories; sampled: histories of handle_layer calls over 3 layer names interleaved with simulated lifecycle restores; the Layer implementation is fully scripted per call: types (8 flag combinations), metadata type {generic, V1, V2} (alternating types reach the migration path after restores), existing_layer_strategy in {keep, update, recreate, error}, migrate_incompatible_metadata in {recreate, replace with a valid value, error}, create/update returning metadata, env None | Some(entries over all/build/launch/process with byte-string names), 0..3 exec.d programs, 0..3 SBOMs, plain files written into the layer path (also bin/ lib/ include/ pkgconfig/), or an error. Oracle after EVERY call: callback log (which callbacks, once, in order, with which metadata/path, create on an empty directory) == model; Err iff a callback returned Err; disk == model (files bytewise via an independent env renderer, content metadata via Python tomllib, SBOMs); other layers byte-identical; returned LayerData (name, path, types, metadata, env applied for all scopes incl. per-process and unknown process to 3 starting envs, incl. implicit layer paths) == disk. Non-trivial: >= 2 handle_layer calls on the same name separated by a restore, with a layer result that carried a per-process env entry, an SBOM or an exec.d program; distinct = hash of the operation list.");
+    ctx.set_exhaustive(true);
+    ctx.extra("exhaustive_subspace", json!("histories of length <= 2 (+ a restore in between) over the reduced alphabet; longer histories are sampled"));
     ctx.assume("callbacks obey the trait's documented contract (write only below layer_path, types() pure); the lifecycle is the abstraction of C01's quantifier");
     let scratch = Scratch::new("c02");
     for (_p, v) in ctx.regress_files() {
         replay(ctx, "", &v["case"]);
+    }
+    // bounded exhaustive: every [h], [h, h'], [h, restore, h'] over the reduced alphabet (72 calls) on one layer
+    let alpha = reduced_alphabet();
+    let mut hs: Vec<Vec<Op>> = vec![];
+    for a in &alpha {
+        hs.push(vec![a.clone()]);
+        for b in &alpha {
+            hs.push(vec![a.clone(), b.clone()]);
+            hs.push(vec![a.clone(), Op::Restore, b.clone()]);
+        }
+    }
+    ctx.class_n("exhaustive:histories", hs.len() as u64);
+    let outs = crate::core::par_map(&hs, crate::core::ncpu(), |h| ExOut { o: run_history(&scratch.path, h) });
+    for (h, e) in hs.iter().zip(outs) {
+        let o = e.o;
+        ctx.eval();
+        ctx.extra_add("steps_executed", o.steps as u64);
+        for c in &o.classes {
+            ctx.class(c);
+        }
+        if o.nontrivial {
+            ctx.nontrivial(hash_of(&history_json(h).to_string()));
+        }
+        if let Some(f) = o.fail {
+            if !ctx.check_case("exhaustive", Err(f), || history_json(h)) {
+                break;
+            }
+        }
     }
     let thorough = ctx.tier == crate::core::Tier::Thorough;
     ctx.run_prop("histories", history_strategy(if thorough { 9 } else { 5 }), ctx.tier.pick(1500, 30_000), |h| history_json(h), |h| {
